@@ -11,8 +11,9 @@ STOCH_MODES = ["ssa", "safe_ssa", "volume", "delay", "lineage"]
 ALL_MODES = ["deterministic"] + STOCH_MODES
 
 
-def simulate(sp, grid, mode, seed):
-    """Returns (rows as array in spec species order)."""
+def simulate(sp, grid, mode, seed, extend=False):
+    """Returns (rows as array in spec species order).  extend: the model is initialised by its constructor, then
+    given one more (unused) parameter - which un-initialises it - and simulated, so that it is initialised twice."""
     from bioscrape.simulator import py_simulate_model
     from bioscrape.random import py_seed_random
     tp = np.array(grid, dtype=float)
@@ -21,9 +22,13 @@ def simulate(sp, grid, mode, seed):
         if mode == "lineage":
             from bioscrape.lineage import py_SimulateSingleCell
             M = specmod.to_model(sp, lineage=True)
+            if extend:
+                M.create_parameter("zzextra", 1.0)
             df = py_SimulateSingleCell(tp, Model=M)
         else:
             M = specmod.to_model(sp)
+            if extend:
+                M.create_parameter("zzextra", 1.0)
             kw = {"deterministic": dict(stochastic=False), "ssa": dict(stochastic=True),
                   "safe_ssa": dict(stochastic=True, safe=True), "volume": dict(stochastic=True, volume=1.0),
                   "delay": dict(stochastic=True, delay=True)}[mode]
@@ -58,7 +63,9 @@ def check(case):
     res = R()
     sp, grid, mode, sub = case["spec"], case["grid"], case["mode"], case["sub"]
     dt = grid[1] - grid[0]
-    rows, times = simulate(sp, grid, mode, case["seed"])
+    rows, times = simulate(sp, grid, mode, case["seed"], extend=bool(case.get("extend")))
+    if case.get("extend"):
+        res.label("initialised_twice")
     names = sp["species"]
     col = {s: i for i, s in enumerate(names)}
     if rows.shape[0] != len(grid) or not np.array_equal(times, np.array(grid)):
@@ -100,7 +107,7 @@ def check(case):
         d = np.diff(X)[1:]
         if np.any(d != 1):
             k = int(np.argmax(d != 1)) + 1
-            res.fail(("dt_rule_steps", mode, "with_reactions" if case.get("dynamic") else "no_reactions"),
+            res.fail(("dt_rule_steps", mode, "with_reactions" if case.get("dynamic") else "no_reactions") + (("parameter_target",) if case.get("target") == "parameter" else ()),
                      row=k + 1, increment=float(X[k + 1] - X[k]), expected=1.0, column=[float(x) for x in X[:8]])
         res.nontrivial = events >= 1
     elif sub == "ode_rule":
@@ -109,11 +116,13 @@ def check(case):
         exp = case["rate"] * dt
         if np.any(np.abs(d - exp) > 1e-9 * max(1.0, abs(exp))):
             k = int(np.argmax(np.abs(d - exp) > 1e-9 * max(1.0, abs(exp)))) + 1
-            res.fail(("ode_rule_steps", mode, "with_reactions" if case.get("dynamic") else "no_reactions"),
+            res.fail(("ode_rule_steps", mode, "with_reactions" if case.get("dynamic") else "no_reactions") + (("parameter_target",) if case.get("target") == "parameter" else ()),
                      row=k + 1, increment=float(X[k + 1] - X[k]), expected=exp, dt=dt)
         res.nontrivial = events >= 1
     if events >= 1:
         res.label("reaction_events_between_rows")
+    if case.get("target") == "parameter":
+        res.label("dt_or_ode_rule_on_a_parameter")
     return res
 
 
@@ -210,12 +219,26 @@ def schedule_case(draw, mode, grid):
         b.rules.append({"type": "assignment", "eq": f"X = {ref._num_str(v)}", "freq": repr(T), "tree": tree, "dest": "X"})
         case.update(T=T, v=v)
     elif sub == "dt_counter":
-        tree = ["add", gen.sym("X"), gen.num(1)]
-        b.rules.append({"type": "assignment", "eq": "X = X + 1", "freq": "dt", "tree": tree, "dest": "X"})
+        if draw(st.integers(0, 2)) == 0:
+            # the counter is a parameter; a repeated rule mirrors it into the observable species X
+            b.params["cnt"] = float(draw(st.integers(0, 5)))
+            b.rules.append({"type": "assignment", "eq": "cnt = cnt + 1", "freq": "dt",
+                            "tree": ["add", gen.sym("cnt"), gen.num(1)], "dest": "cnt"})
+            b.rules.append({"type": "assignment", "eq": "X = cnt", "freq": "repeated", "tree": gen.sym("cnt"), "dest": "X"})
+            case["target"] = "parameter"
+        else:
+            tree = ["add", gen.sym("X"), gen.num(1)]
+            b.rules.append({"type": "assignment", "eq": "X = X + 1", "freq": "dt", "tree": tree, "dest": "X"})
     else:
         rate = draw(st.sampled_from([1.0, 0.5, 3.0, -0.25]))
         b.params["rr"] = rate
-        b.rules.append({"type": "ode", "eq": "rr", "target": "X", "freq": "dt", "tree": gen.sym("rr"), "dest": "X"})
+        if draw(st.integers(0, 2)) == 0:
+            b.params["acc"] = float(draw(st.integers(0, 5)))
+            b.rules.append({"type": "ode", "eq": "rr", "target": "acc", "freq": "dt", "tree": gen.sym("rr"), "dest": "acc"})
+            b.rules.append({"type": "assignment", "eq": "X = acc", "freq": "repeated", "tree": gen.sym("acc"), "dest": "X"})
+            case["target"] = "parameter"
+        else:
+            b.rules.append({"type": "ode", "eq": "rr", "target": "X", "freq": "dt", "tree": gen.sym("rr"), "dest": "X"})
         case["rate"] = rate
     case["spec"] = b.spec(x0)
     return case
@@ -233,7 +256,8 @@ def cases(draw):
     else:
         mode = draw(st.sampled_from(ALL_MODES))
         case = draw(chain_case(mode)) if kind == "chain" else draw(rate_case(mode))
-    case.update(kind="rules", mode=mode, grid=grid, seed=draw(st.integers(1, 2 ** 40)))
+    case.update(kind="rules", mode=mode, grid=grid, seed=draw(st.integers(1, 2 ** 40)),
+                extend=draw(st.integers(0, 3)) == 0)
     return case
 
 
